@@ -350,6 +350,36 @@ theorem C08_unbuffered_queue_empty {b : Nat} {c0 c : Cfg St Thread} (h0 : Init 0
   simp [hq.2] at this
   exact this
 
+/-! ### The counter stays inside the range of `atomic.Int32` -/
+
+theorem countP_le_length (p : Thread → Bool) (l : List Thread) : l.countP p ≤ l.length := by
+  induction l with
+  | nil => simp
+  | cons a l ih => simp only [List.countP_cons, List.length_cons]; split <;> omega
+
+/-- `scheduledCount` is an `atomic.Int32` (`C08_skeleton_type_BatchedWriter`); the model's counter is an unbounded
+integer.  In every reachable configuration it is non-negative and at most (number of threads) + (queue size) + 1:
+the model is exact for the 32-bit counter as long as fewer than 2^31 − q − 1 goroutines call `Enqueue`
+concurrently. -/
+theorem C08_counter_in_int32_range {q b : Nat} {c0 c : Cfg St Thread} (h0 : Init q b c0) (hr : Reach sys c0 c) :
+    0 ≤ c.1.count ∧ c.1.count ≤ (c.2.length : Int) + c.1.qsize + 1 ∧ c.1.qsize = q := by
+  have hi := inv_reach h0 hr
+  have h1 := hi.cnt.count
+  have h2 := queue_le h0 hr
+  have h3 := countP_le_length atSend c.2
+  have h4 : holdC c.1.wpc ≤ 1 := by unfold holdC; split <;> omega
+  have hq : c.1.qsize = q := by
+    obtain ⟨s0, ts⟩ := c0
+    obtain ⟨rfl, _, _⟩ := h0
+    refine inv_of_step (fun c => c.1.qsize = q) rfl ?_ hr
+    intro s pre t post s' t' h hm
+    simp only at h ⊢
+    step_cases
+    all_goals (first | exact h | (simp_all [emit, afterCommit]; done))
+  refine ⟨by omega, by omega, hq⟩
+
+example : (runSched sys (initSt 1 1, witnessThreads 2 id) (rep 0 12 ++ rep 1 4)).1.count = 2 := by decide
+
 /-! ### The old protocol (`sysOld`: running check before the counter increment) violates the statement -/
 
 def oldWindowCfg : Cfg St Thread := runSched sysOld (initSt 1 1, witnessThreads 1 (fun _ => 0)) (oldWindowSched 1)
